@@ -128,7 +128,7 @@ PROPS = {
         level_note="matcher_ok asks of a Hosts member that a rejection leaves a duplicate-free parameter list as it was and that an answer keeps it duplicate-free; since the repair of F28 (Hosts.Match puts back what its lookup deleted; model: hosts_match = restore_missing after hosts_match_raw) this is PROVED for every reachable Hosts tree with no side condition on parameter names (C13_hosts_clean_reachable, C14_hosts_reject_clean, C14_hosts_nodup), so C13_reject_clean applies to every matcher built from reachable Hosts trees; C13_match_nodup: every matcher keeps the list duplicate-free; C14_hosts_lookup_alone_loses_refuted: the tree lookup alone does lose parameters, i.e. the repair is necessary. Custom matchers are outside the model."),
     "C14": rt(300, 5000, ["hmatch-accept"],
         "Add/Delete/RegisterInterceptor histories over >=6 literal domains + parameterised domains in mixed case; hosts in any case, with ports, brackets, invalid ports, '', '*'; dump after every step",
-        suite="C14", props=["C14", "C14tree", "C14resolve"],
+        suite="C14", props=["C14", "C14tree", "C14resolve", "C02order", "PureFuns"],
         level_text="C14_normalise_is_lower, C14_strip_port_valid/_invalid, C14_strip_brackets, C14_add_ci, C14_delete_ci, C14_match_uses_normalised; matching itself is the shared tree (C01/C02 theorems).",
         level_note="C14_hosts_bridge: a hosts history whose interceptor registrations precede the first Add is a tree history (the other order is shown to differ: C14_hosts_bridge_refuted); on such histories C14_hosts_refines_resolver / C14_hosts_accepts_iff_resolves (add-only: Match accepts iff the C02 resolver finds a domain, with exactly its parameters; '' and '*' always rejected), C14_hosts_delete_frame, C14_hosts_deleted_gone_ci, C14_hosts_sound, C14_hosts_live_served. Non-ASCII hosts/domains are outside the model (strings.ToLower is Unicode-aware). F28 repaired: C14_hosts_reject_clean (any duplicate-free context, no disjointness), C14_hosts_accept_keeps_earlier (no earlier parameter is ever lost, any tree), C14_hosts_restore_get; the raw lookup alone loses parameters (C14_hosts_lookup_alone_loses_refuted)."),
     "C15": rt(300, 5000, ["pv-accept", "hv-accept"],
